@@ -27,22 +27,91 @@ pub const REQUIRED_PROBES: [&str; 9] = [
     "ctap1_authenticate",
 ];
 
-pub const CTAP2_STATUSES: [ctap2::Error; 6] = [
+/// Every status the CTAP2 error type can express (a handler is another party's program: it may
+/// fail with any of them, including the odd ones such as `Success`).
+pub const CTAP2_STATUSES: [ctap2::Error; 55] = [
+    ctap2::Error::Success,
+    ctap2::Error::InvalidCommand,
     ctap2::Error::InvalidParameter,
-    ctap2::Error::PinAuthInvalid,
-    ctap2::Error::NoCredentials,
+    ctap2::Error::InvalidLength,
+    ctap2::Error::InvalidSeq,
+    ctap2::Error::Timeout,
+    ctap2::Error::ChannelBusy,
+    ctap2::Error::LockRequired,
+    ctap2::Error::InvalidChannel,
+    ctap2::Error::CborUnexpectedType,
+    ctap2::Error::InvalidCbor,
+    ctap2::Error::MissingParameter,
+    ctap2::Error::LimitExceeded,
+    ctap2::Error::UnsupportedExtension,
+    ctap2::Error::FingerprintDatabaseFull,
+    ctap2::Error::LargeBlobStorageFull,
+    ctap2::Error::CredentialExcluded,
+    ctap2::Error::Processing,
+    ctap2::Error::InvalidCredential,
+    ctap2::Error::UserActionPending,
+    ctap2::Error::OperationPending,
+    ctap2::Error::NoOperations,
+    ctap2::Error::UnsupportedAlgorithm,
     ctap2::Error::OperationDenied,
     ctap2::Error::KeyStoreFull,
+    ctap2::Error::NotBusy,
+    ctap2::Error::NoOperationPending,
+    ctap2::Error::UnsupportedOption,
+    ctap2::Error::InvalidOption,
+    ctap2::Error::KeepaliveCancel,
+    ctap2::Error::NoCredentials,
+    ctap2::Error::UserActionTimeout,
+    ctap2::Error::NotAllowed,
+    ctap2::Error::PinInvalid,
+    ctap2::Error::PinBlocked,
+    ctap2::Error::PinAuthInvalid,
+    ctap2::Error::PinAuthBlocked,
+    ctap2::Error::PinNotSet,
+    ctap2::Error::PinRequired,
+    ctap2::Error::PinPolicyViolation,
+    ctap2::Error::PinTokenExpired,
+    ctap2::Error::RequestTooLarge,
+    ctap2::Error::ActionTimeout,
+    ctap2::Error::UpRequired,
+    ctap2::Error::UvBlocked,
+    ctap2::Error::IntegrityFailure,
+    ctap2::Error::InvalidSubcommand,
+    ctap2::Error::UvInvalid,
+    ctap2::Error::UnauthorizedPermission,
     ctap2::Error::Other,
+    ctap2::Error::SpecLast,
+    ctap2::Error::ExtensionFirst,
+    ctap2::Error::ExtensionLast,
+    ctap2::Error::VendorFirst,
+    ctap2::Error::VendorLast,
 ];
 
-pub const CTAP1_STATUSES: [ctap1::Error; 6] = [
+pub const CTAP1_STATUSES: [ctap1::Error; 24] = [
     ctap1::Error::ConditionsOfUseNotSatisfied,
     ctap1::Error::IncorrectDataParameter,
     ctap1::Error::WrongLength,
     ctap1::Error::NotEnoughMemory,
     ctap1::Error::SecurityStatusNotSatisfied,
     ctap1::Error::UnspecifiedCheckingError,
+    ctap1::Error::Success,
+    ctap1::Error::MoreAvailable(0),
+    ctap1::Error::MoreAvailable(0xff),
+    ctap1::Error::DataUnchangedWarning,
+    ctap1::Error::VerificationFailed,
+    ctap1::Error::RemainingRetries(3),
+    ctap1::Error::UnspecifiedNonpersistentExecutionError,
+    ctap1::Error::UnspecifiedPersistentExecutionError,
+    ctap1::Error::MemoryFailure,
+    ctap1::Error::ClaNotSupported,
+    ctap1::Error::CommandNotAllowed,
+    ctap1::Error::OperationBlocked,
+    ctap1::Error::WrongParametersNoInfo,
+    ctap1::Error::FunctionNotSupported,
+    ctap1::Error::NotFound,
+    ctap1::Error::WrongLeField(7),
+    ctap1::Error::InstructionNotSupportedOrInvalid,
+    ctap1::Error::ClassNotSupported,
 ];
 
 pub const VERSION_MARKER: [u8; 6] = *b"SIMV_1";
@@ -72,14 +141,14 @@ impl<const LB: bool> Mock<LB> {
         if self.script == 0 {
             None
         } else {
-            Some(Err(CTAP2_STATUSES[(self.script as usize - 1) % 6]))
+            Some(Err(CTAP2_STATUSES[(self.script as usize - 1) % CTAP2_STATUSES.len()]))
         }
     }
     fn fail1<T>(&self) -> Option<ctap1::Result<T>> {
         if self.script == 0 {
             None
         } else {
-            Some(Err(CTAP1_STATUSES[(self.script as usize - 1) % 6]))
+            Some(Err(CTAP1_STATUSES[(self.script as usize - 1) % CTAP1_STATUSES.len()]))
         }
     }
 }
@@ -386,7 +455,7 @@ where
     let unique = counter_before.wrapping_add(1);
     let fails = script != 0 && exp.handler != "get_info";
     if fails {
-        let want = CTAP2_STATUSES[(script as usize - 1) % 6];
+        let want = CTAP2_STATUSES[(script as usize - 1) % CTAP2_STATUSES.len()];
         if res != Err(want) {
             return f("error_changed", format!("handler failed with {:?} but the caller got {}", want, short2(&res)));
         }
@@ -473,7 +542,7 @@ fn check_ctap1<const LB: bool>(m: &mut Mock<LB>, req: &ctap1::Request, script: u
     }
     let unique = counter_before.wrapping_add(1);
     if script != 0 {
-        let want = CTAP1_STATUSES[(script as usize - 1) % 6];
+        let want = CTAP1_STATUSES[(script as usize - 1) % CTAP1_STATUSES.len()];
         if res != Err(want) {
             return f("error_changed", format!("handler failed with {:?} but the caller got {}", want, short(&res)));
         }
@@ -539,7 +608,7 @@ pub fn dispatch_generated1(m: &mut Mocks, req: &ctap1::Request) -> Result<String
 }
 
 pub fn exec(dev: &mut Device, x: &DispatchSpec, log: &mut Log) -> Option<Finding> {
-    let script = x.script % 7;
+    let script = x.script;
     let outcome: Result<String, Finding> = match x.source {
         2 => match guard(|| ctap2::Request::deserialize(&x.bytes).map_err(|e| e as u8)) {
             Ok(Ok(req)) => {
@@ -691,11 +760,20 @@ pub fn gen(seed: u64, run: u64, _tier: &str) -> Vec<Step> {
     for cmd in 0x42u8..=0x7f {
         ctap2_msgs.push((vec![cmd], format!("CTAP2 vendor command 0x{:02x}", cmd)));
     }
+    // success plus six statuses per run, rotating through every status the error types can express
+    let n2 = CTAP2_STATUSES.len() as u64;
+    let n1 = CTAP1_STATUSES.len() as u64;
+    let mut scripts2: Vec<u8> = vec![0];
+    let mut scripts1: Vec<u8> = vec![0];
+    for k in 0..6u64 {
+        scripts2.push(((run * 6 + k) % n2) as u8 + 1);
+        scripts1.push(((run * 6 + k) % n1) as u8 + 1);
+    }
     for (bytes, desc) in &ctap2_msgs {
         let vendor = bytes[0] >= 0x42;
         for lb in [false, true] {
             // vendor codes: every code with a rotating script; everything else: every script
-            let scripts: Vec<u8> = if vendor { vec![(bytes[0] as u64 + run) as u8 % 7] } else { (0..7).collect() };
+            let scripts: Vec<u8> = if vendor { vec![if (bytes[0] as u64 + run) % 3 == 0 { 0 } else { ((bytes[0] as u64 * 7 + run) % n2) as u8 + 1 }] } else { scripts2.clone() };
             for script in scripts {
                 specs.push(DispatchSpec { source: 2, bytes: bytes.clone(), script, large_blobs: lb, desc: desc.clone() });
             }
@@ -716,7 +794,7 @@ pub fn gen(seed: u64, run: u64, _tier: &str) -> Vec<Step> {
     apdus.push((apdu(&mut rng, 3, 0x55, &[1, 2, 3]), "U2F version with stray parameters".into()));
     for (bytes, desc) in &apdus {
         for lb in [false, true] {
-            for script in 0..7u8 {
+            for script in scripts1.iter().copied() {
                 specs.push(DispatchSpec { source: 1, bytes: bytes.clone(), script, large_blobs: lb, desc: desc.clone() });
             }
         }
@@ -731,7 +809,7 @@ pub fn gen(seed: u64, run: u64, _tier: &str) -> Vec<Step> {
                 e[3] = rng.below(10) as u8 * 26 + 5;
             }
             let src = if rng.chance(1, 4) { 11 } else { 12 };
-            specs.push(DispatchSpec { source: src, bytes: e, script: rng.below(7) as u8, large_blobs: rng.coin(), desc: format!("request generated from {} bytes of entropy", n) });
+            specs.push(DispatchSpec { source: src, bytes: e, script: if rng.coin() { 0 } else { rng.below(n2.min(n1)) as u8 + 1 }, large_blobs: rng.coin(), desc: format!("request generated from {} bytes of entropy", n) });
         }
     }
     // the order of exchanges is the schedule: the mocks' state persists across them
@@ -750,7 +828,7 @@ pub fn account(step: &Step, outcome: &str, stats: &mut Stats) {
             stats.probe(outcome.split(':').next().unwrap_or("skip"));
             return;
         }
-        let script = x.script % 7;
+        let script = x.script;
         if script != 0 {
             stats.fault("handler_fails");
         }
